@@ -70,8 +70,12 @@ type T struct {
 //	Timestamp(I sec, Ns) Arr(Vs) Hash(Vs = k0,v0,k1,v1,...) Entry(Vs = k,v) Sensitive(Vs[0]) Type(T)
 //	outside the Rocq model: Uri(S) SemVer(S) SemVerRange(S) Object(S = name of a harness object type, Vs = arguments)
 //	MutHash(Vs) (a *MutableHashValue)
+//
+// R is the construction route (routes.go): "" = the plain constructor.  For the routes "from-array" and
+// "new-from-array" of a Hash, Vs holds the elements of the array that the Hash is made from.
 type V struct {
 	K  string `json:"k"`
+	R  string `json:"r,omitempty"`
 	B  bool   `json:"b,omitempty"`
 	I  int64  `json:"i,omitempty"`
 	Ns int64  `json:"ns,omitempty"`
@@ -209,7 +213,7 @@ func (v *V) inModel() bool {
 		case "Uri", "SemVer", "SemVerRange", "Object", "MutHash":
 			return true
 		}
-		return false
+		return x.isRawFromArray()
 	}, func(t *T) bool { return t.K == "Text" || t.K == "Struct" })
 }
 
@@ -410,6 +414,18 @@ func (v *V) wellFormed() bool {
 			return false
 		}
 	}
+	if v.R != "" && !v.routeApplicable() {
+		return false
+	}
+	if v.isRawFromArray() {
+		// the elements of the array: values with hash keys, NaN free (a NaN key is equal to nothing)
+		for _, e := range v.Vs {
+			if !e.keyable() || !e.clean() {
+				return false
+			}
+		}
+		return true
+	}
 	switch v.K {
 	case "Regexp":
 		if _, err := regexpCompile(string(v.S)); err != nil {
@@ -447,6 +463,9 @@ func objectType(c px.Context, name string) px.Type {
 }
 
 func (v *V) build(c px.Context) px.Value {
+	if v.R != "" {
+		return v.buildRoute(c)
+	}
 	switch v.K {
 	case "Undef":
 		return types.WrapUndef()
@@ -574,6 +593,15 @@ func bound(i int64) string {
 }
 
 func (v *V) String() string {
+	if v.R != "" {
+		u := *v
+		u.R = ""
+		if v.isRawFromArray() {
+			u.K = "Arr"
+			return "Hash(" + v.R + " " + u.String() + ")"
+		}
+		return u.String() + "@" + v.R
+	}
 	subs := func() string {
 		ss := make([]string, len(v.Vs))
 		for i, e := range v.Vs {
@@ -740,6 +768,9 @@ func (v *V) gallina() string {
 		}
 		return "(VArr " + lib.GList(es, "value") + ")"
 	case "Hash":
+		if v.isRawFromArray() {
+			panic("no VHash term for a hash described by the array it is made from")
+		}
 		es := make([]string, 0, len(v.Vs)/2)
 		for i := 0; i+1 < len(v.Vs); i += 2 {
 			es = append(es, lib.GPair(v.Vs[i].gallina(), v.Vs[i+1].gallina()))
